@@ -294,6 +294,7 @@ def _transform(dst, how):
     """Whole-tree behaviour-preserving rewrites."""
     import ast
     defs = _unique_defs(dst) if how == 'kwcalls' else None
+    priv = _private_defs(dst) if how == 'renamepriv' else None
     for dp, dn, fn in os.walk(dst):
         for f in fn:
             if not f.endswith('.py'):
@@ -319,6 +320,8 @@ def _transform(dst, how):
                 new = comprehensions_to_loops(src)
             elif how == 'joinassign':
                 new = join_assignments(src)
+            elif how == 'renamepriv':
+                new = rename_private_defs(src, priv)
             elif how == 'shift':
                 # push every line down (line numbers change, nothing else)
                 new = '# moved\n' * 7 + src if not src.startswith('#!') else \
@@ -328,6 +331,50 @@ def _transform(dst, how):
                 raise ValueError(how)
             with open(path, 'w') as fh:
                 fh.write(new)
+
+
+def _private_defs(dst):
+    """Names of the private functions, methods, module constants and class
+    attributes defined anywhere in the package copy (not dunder names, and not
+    names that also occur as a string constant - those may be looked up by
+    text, e.g. through getattr)."""
+    import ast
+    from .anchors import definitions
+    names, strings = set(), set()
+    for dp, dn, fn in os.walk(dst):
+        for f in fn:
+            if f.endswith('.py'):
+                with open(os.path.join(dp, f)) as fh:
+                    tree = ast.parse(fh.read())
+                names |= {d[2] for d in definitions(tree)}
+                strings |= {n.value for n in ast.walk(tree) if isinstance(
+                    n, ast.Constant) and isinstance(n.value, str)}
+    return {n for n in names if n not in strings}
+
+
+def rename_private_defs(src, names):
+    """Every private definition of the package gets a new name (`_x` ->
+    `_x_rn7`), all uses updated: the rename a maintainer does with an IDE."""
+    import ast
+    tree = ast.parse(src)
+    for n in ast.walk(tree):
+        if isinstance(n, ast.Name) and n.id in names:
+            n.id += '_rn7'
+        elif isinstance(n, ast.Attribute) and n.attr in names:
+            n.attr += '_rn7'
+        elif isinstance(n, (ast.FunctionDef, ast.AsyncFunctionDef)) and \
+                n.name in names:
+            n.name += '_rn7'
+        elif isinstance(n, ast.arg) and n.arg in names:
+            n.arg += '_rn7'
+        elif isinstance(n, ast.keyword) and n.arg in names:
+            n.arg += '_rn7'
+        elif isinstance(n, ast.alias):
+            if n.name in names:
+                n.name += '_rn7'
+            if n.asname in names:
+                n.asname += '_rn7'
+    return ast.unparse(tree) + '\n'
 
 
 def rename_import_aliases(src):
@@ -449,7 +496,7 @@ def run_for_property(prop, repo, seed=0, jobs=None):
     variants = [v for v in load_variants() if v['property'] == prop]
     # two whole-tree behaviour-preserving rewrites for every property
     for how in ('unparse', 'shift', 'rename', 'alias', 'kwcalls', 'swapif',
-                'splitassign', 'comp2loop', 'joinassign'):
+                'splitassign', 'comp2loop', 'joinassign', 'renamepriv'):
         variants.append({'id': '%s-benign-%s-all' % (prop.lower(), how),
                          'property': prop, 'kind': 'benign', 'edits': [],
                          'transform': how, 'expect': None, 'clears': None,
